@@ -49,8 +49,9 @@ MAXLEN = 6  # bound on the length of every symbolic string (they are never inspe
 
 
 def _short(*ss) -> bool:
+    m = (ob.case() or {}).get('maxlen', MAXLEN)
     for s in ss:
-        if len(s) > MAXLEN:
+        if len(s) > m:
             return False
     return True
 
@@ -96,6 +97,8 @@ def _pre_k1(p, a0, a1, a2, t, rc, fault) -> bool:
             return False
     if ob.case()['driver'] == 'file' and p != '':
         return False
+    if ob.case().get('lean') and not (fault == 0 and t == -1):
+        return False  # these dimensions are covered by the obligations with fewer arguments
     return _short(p, a0, a1, a2) and 0 <= fault <= 3 and t >= -1
 
 
@@ -429,6 +432,500 @@ def k2_denote(s0: str, s1: str, s2: str) -> bool:
     return ob.post(ok)
 
 
+# =============================================================================================== K3
+
+REAL_K3 = (
+    'exactly_lib.execution.full_execution.execution.execute',
+    'exactly_lib.execution.partial_execution.impl.atc_execution.ActionToCheckExecutor',
+    'exactly_lib.cli_default.program_modes.test_case.test_case_handling_setup.TheActor.parse',
+    'exactly_lib.impls.actors.util.actor_from_parts.parts.ActionToCheckFromParts',
+    'exactly_lib.impls.actors.program.parse.Parser.apply',
+    'exactly_lib.impls.actors.program.execution.Executor.execute',
+    'exactly_lib.impls.actors.program.execution.Executor._resolve_stdin',
+    'exactly_lib.impls.actors.program.execution._ExecutorWithoutTransformation.execute',
+    'exactly_lib.impls.actors.program.execution._ExecutorWithTransformation.execute',
+    'exactly_lib.impls.actors.file_interpreter._Actor.parse',
+    'exactly_lib.impls.actors.file_interpreter._ActionToCheck.execute',
+    'exactly_lib.impls.actors.source_interpreter.executor.Executor',
+    'exactly_lib.impls.actors.source_interpreter.parser.Parser.apply',
+    'exactly_lib.impls.actors.util.actor_from_parts.command_executor.OsProcessExecutor.execute',
+    'exactly_lib.impls.actors.util.atc_proc_exe_settings.for_atc',
+    'exactly_lib.impls.actors.util.std_files.of_optional_stdin',
+    'exactly_lib.impls.actors.null._Executor.execute',
+    'exactly_lib.impls.types.string_source.as_stdin._context_manager',
+    'exactly_lib.impls.instructions.configuration.utils.actor_utils.parse',
+    'exactly_lib.impls.instructions.setup.stdin._Instruction.main',
+    'exactly_lib.impls.instructions.setup.stdin._StdinOfStringSource.resolve',
+    'exactly_lib.impls.instructions.multi_phase.run._InstructionPartsParser.parse',
+    'exactly_lib.impls.instructions.multi_phase.shell.embryo_parser',
+    'exactly_lib.impls.instructions.multi_phase.sys_cmd.embryo_parser',
+    'exactly_lib.impls.instructions.multi_phase.utils.instruction_from_parts_for_executing_program.TheInstructionEmbryo.main',
+    'exactly_lib.impls.instructions.multi_phase.utils.instruction_from_parts_for_executing_program.result_to_sh',
+    'exactly_lib.impls.instructions.multi_phase.utils.instruction_from_parts_for_executing_program.result_to_pfh',
+    'exactly_lib.impls.program_execution.processors.store_result_in_files.ProcessorThatStoresResultInFilesInDir.process',
+    'exactly_lib.impls.program_execution.processors.read_stderr_on_error.ProcessorThatStoresResultInFilesInDirAndReadsStderrOnNonZeroExitCode.process',
+    'exactly_lib.impls.program_execution.impl.cmd_exe_from_proc_exe.CommandExecutorFromProcessExecutor.execute',
+    'exactly_lib.impls.program_execution.executable_factories._CommandTranslator',
+    'exactly_lib.util.process_execution.process_executor.ProcessExecutor.execute',
+    'exactly_lib.type_val_deps.types.program.sdv.accumulated_components.AccumulatedComponents.new_accumulated',
+    'exactly_lib.impls.types.program.sdvs.program_symbol_sdv.ProgramSdvForSymbolReference.resolve',
+    'exactly_lib.impls.types.program.sdvs.command_program_sdv.ProgramSdvForCommand.resolve',
+    'exactly_lib.impls.instructions.assert_.process_output.exit_code.Parser.parse',
+    'exactly_lib.impls.instructions.assert_.process_output.impl.exit_code.getter_from_atc._ExitCodeGetter._get_exit_code',
+)
+
+OUT0 = 'some OUT text\nout 2\n'
+ERR0 = 'an err text\n'
+OUTS = (OUT0, 'other OUT\n', '')
+ERRS = (ERR0, '')
+CODES_QUICK = (0, 1, 2, 127, 255)
+SOURCE_LINES = ('line one $x "q"', "  line 'two'  ", '', '#! four')
+
+HDS_FILES = (('f.txt', sp.FILE_TXT, 0o644), ('exe', '#!/bin/sh\n', 0o755), ('src.py', 'the source file\n', 0o644))
+INTERP = Pgm('sys', 'interp', ['option', 'sym1'])
+
+PHASES = ('setup', 'before-assert', 'assert', 'cleanup')
+
+
+def _here(text: str) -> str:
+    assert text.endswith('\n')
+    return '<<EOF\n' + text + 'EOF'
+
+
+class K3Case:
+    def __init__(self, name: str, actor: str = 'command', act=None, defs=(), setup_stdin: Optional[str] = None,
+                 cd: bool = False, runs=(), outcome: bool = False, interp: Pgm = INTERP):
+        self.name, self.actor, self.act, self.defs = name, actor, act, list(defs)
+        self.setup_stdin, self.cd, self.runs, self.outcome, self.interp = setup_stdin, cd, list(runs), outcome, interp
+
+    # runs: (phase, instruction form in {'run', '%', '$'}, Pgm, ignore-exit-code)
+
+    def _run_line(self, r) -> str:
+        phase, form, p, ignore = r
+        if form == 'run':
+            return 'run ' + ('-ignore-exit-code ' if ignore else '') + p.text()
+        return p.text()  # the instructions `%` and `$` are written as the program forms
+
+    def act_den(self) -> Optional[sp.Den]:
+        if self.actor == 'command':
+            return sp.denote(self.act, dict(self.defs))
+        return None
+
+    def text(self, ignore_override=None) -> str:
+        lines = []
+        if self.actor != 'command':
+            lines += ['[conf]', 'actor = ' + self.actor + ('' if self.actor == 'null' else ' ' + self.interp.text())]
+        lines += ['[setup]', sp.DEF_L, sp.DEF_P, sp.DEF_E]
+        if self.cd:
+            lines += ['dir sub', 'cd sub']
+        for name, p in self.defs:
+            lines.append('def program %s = %s' % (name, p.text()))
+        if self.setup_stdin is not None:
+            lines.append('stdin = ' + sp.T[self.setup_stdin][0])
+        lines += [self._run_line(r) for r in self.runs if r[0] == 'setup']
+        lines.append('[act]')
+        if self.actor == 'command':
+            lines.append(self.act.text())
+        elif self.actor == 'file':
+            lines.append('src.py ' + sp.arg_text(self.act))
+        else:
+            lines += list(SOURCE_LINES)
+        lines.append('[before-assert]')
+        lines += [self._run_line(r) for r in self.runs if r[0] == 'before-assert']
+        lines.append('[assert]')
+        lines += [self._run_line(r) for r in self.runs if r[0] == 'assert']
+        if self.outcome:
+            lines.append('exit-code == K0')
+        else:
+            lines.append('exit-code == 0')
+        if self.actor == 'null':
+            lines += ['stdout is-empty', 'stderr is-empty']
+        else:
+            d = self.act_den()
+            out = OUT0 if d is None else sp.transformed(d, OUT0)
+            lines += ['stdout equals ' + _here(out), 'stderr equals ' + _here(ERR0)]
+        lines.append('[cleanup]')
+        lines += [self._run_line(r) for r in self.runs if r[0] == 'cleanup']
+        return '\n'.join(lines) + '\n'
+
+    def procs(self, env: sp.Env, cwd: str, setup_stdin_first: bool = False) -> List[sp.Proc]:
+        """the processes that must be started, in order"""
+        out = []
+        defs = dict(self.defs)
+
+        def of_runs(phase):
+            for i, r in enumerate(self.runs):
+                if r[0] == phase:
+                    out.extend(sp.procs_of(sp.denote(r[2], defs), 'run%d' % i, env, cwd=cwd))
+
+        of_runs('setup')
+        extra_stdin, extra_gens = [], []
+        if self.setup_stdin is not None:
+            extra_stdin = [sp.T[self.setup_stdin][1]]
+            if sp.T[self.setup_stdin][2] is not None:
+                extra_gens = [sp.T[self.setup_stdin][2][1]]
+        if self.actor == 'command':
+            out.extend(sp.procs_of(self.act_den(), 'atc', env, extra_stdin, extra_gens, cwd, setup_stdin_first))
+        elif self.actor == 'file':
+            d = sp.denote(self.interp, defs)
+            d.argv = d.argv + [[sp.HDS, sp.C('/src.py')]] + sp.arg_values(self.act)
+            out.extend(sp.procs_of(d, 'atc', env, extra_stdin, extra_gens, cwd))
+        elif self.actor == 'source':
+            d = sp.denote(self.interp, defs)
+            d.argv = d.argv + [None]  # a file (any path) whose contents is the source
+            ps = sp.procs_of(sp.Den(d.shell, d.argv[:-1], d.stdin, d.trans, d.gens), 'atc', env, extra_stdin, extra_gens, cwd)
+            ps[-1].args = ps[-1].args + [None]
+            out.extend(ps)
+        else:
+            pass  # null actor: no process
+        of_runs('before-assert')
+        of_runs('assert')
+        of_runs('cleanup')
+        return out
+
+
+def _args_equal(expected, got, source_text: Optional[str], call) -> bool:
+    if isinstance(expected, str):
+        return isinstance(got, str) and got == expected
+    if isinstance(got, str) or len(got) != len(expected):
+        return False
+    for i in range(len(expected)):
+        if expected[i] is None:
+            # source interpreter: a path of a file holding the act-phase source
+            if call.files.get(got[i]) != source_text:
+                return False
+        elif not (got[i] == expected[i]):
+            return False
+    return True
+
+
+def _procs_match(expected: List[sp.Proc], calls, source_text=None) -> bool:
+    if len(calls) != len(expected):
+        return False
+    for e, c in zip(expected, calls):
+        if c.shell is not e.shell:
+            return False
+        if not _args_equal(e.args, c.args, source_text, c):
+            return False
+        if e.stdin is None:
+            if c.stdin_text is not None or c.stdin_obj != L.Recorder.DEVNULL:
+                return False
+        elif c.stdin_text != e.stdin:
+            return False
+        if c.cwd != e.cwd or c.extra != {}:
+            return False
+    return True
+
+
+def _behaviour(roles: List[str], atc_child: L.Child, run_children=None):
+    run_children = run_children or {}
+
+    def beh(call, _n=[0]):
+        i = _n[0]
+        _n[0] += 1
+        role = roles[i] if i < len(roles) else 'unexpected'
+        if role == 'gen':
+            return L.Child(out=sp.GEN_OUT)
+        if role == 'atc':
+            return atc_child
+        return run_children.get(role, L.Child())
+
+    return beh
+
+
+def _expected_cwd(run: L.CaseRun, case: K3Case) -> str:
+    return run.act_dir + ('/sub' if case.cd else '')
+
+
+def _k3_cases(tier: str) -> List[K3Case]:
+    cs = []
+
+    def add(*a, **k):
+        cs.append(K3Case(*a, **k))
+
+    sys_ = lambda args=(), **k: Pgm('sys', 'prog', list(args), **k)
+    # ---- command-line actor: program forms
+    add('cmd/sys', act=sys_(['sym', 'empty-sq', 'list', 'option', 'sym-in-dq']))
+    add('cmd/sys-paths', act=sys_(['path', 'existing-file', 'existing-dir', 'sym1']), cd=True)
+    add('cmd/sys-consts', act=sys_(['spaces', 'sq-in-dq', 'dq-in-sq', 'stdin-like', 'reserved-colon', 'reserved-paren',
+                                    'reserved-and', 'equals-sign', 'glob', 'dollar', 'sym-hard-quoted', 'sym', 'rest']))
+    add('cmd/file', act=Pgm('file', 'exe', ['sym', 'plain']), setup_stdin='string')
+    add('cmd/python', act=Pgm('python', '', ['option', 'sym'], parens=True))
+    add('cmd/shell', act=Pgm('shell', 'echo "a  b"   \'c\' @[S0]@ | cat -n',
+                             head_value=[sp.C('echo "a  b"   \'c\' '), sp.S(0), sp.C(' | cat -n')]), setup_stdin='here-doc')
+    add('cmd/continuation', act=sys_(['plain', 'sym', 'sym1'], continuation=True))
+    # ---- stdin of every kind of text source
+    for t in sp.T:
+        add('stdin/setup-' + t, act=sys_(['plain']), setup_stdin=t)
+    add('stdin/pgm-string', act=sys_(['plain'], stdin='string'))
+    add('stdin/pgm-program', act=sys_(['sym'], stdin='program'))
+    add('stdin/pgm+setup', act=sys_(['sym'], stdin='here-doc'), setup_stdin='file', cd=True)
+    add('stdin/pgm-file+setup-program', act=sys_([], stdin='file'), setup_stdin='program')
+    # ---- chains of program symbols
+    base = Pgm('sys', 'base', ['plain', 'sym'], stdin='string')
+    add('chain/1', act=Pgm('ref', 'P1', ['sym1']), defs=[('P1', base)], setup_stdin='sym')
+    add('chain/2', act=Pgm('ref', 'P2', ['list'], stdin='file'),
+        defs=[('P1', base), ('P2', Pgm('ref', 'P1', ['sym1'], stdin='here-doc'))], setup_stdin='string')
+    add('chain/2-trans', act=Pgm('ref', 'P2', ['plain2']),
+        defs=[('P1', Pgm('sys', 'base', ['sym'], trans='upper')), ('P2', Pgm('ref', 'P1', ['sym1'], trans='replace'))])
+    add('chain/2-trans-rev', act=Pgm('ref', 'P2', ['plain2'], trans='upper'),
+        defs=[('P1', Pgm('sys', 'base', ['sym'])), ('P2', Pgm('ref', 'P1', ['sym1'], trans='replace'))],
+        setup_stdin='string')
+    add('chain/shell', act=Pgm('ref', 'P1', ['sym1', 'spaces']),
+        defs=[('P1', Pgm('shell', 'echo @[S0]@ x', head_value=[sp.C('echo '), sp.S(0), sp.C(' x')]))])
+    add('chain/file', act=Pgm('ref', 'P1', ['sym1']), defs=[('P1', Pgm('file', 'exe', ['existing-file']))])
+    # ---- the other actors
+    add('file-actor/args', actor='file', act=['sym', 'spaces', 'list', 'empty-dq'], setup_stdin='string')
+    add('file-actor/no-args', actor='file', act=[], cd=True)
+    add('file-actor/shell-like', actor='file', act=['dollar', 'glob', 'sym1'], setup_stdin='program',
+        interp=Pgm('file', 'exe', ['sym']))
+    add('source-actor', actor='source', setup_stdin='here-doc')
+    add('source-actor/no-stdin', actor='source', cd=True, interp=Pgm('python', '', ['option']))
+    add('null-actor', actor='null', setup_stdin='string')
+    # ---- programs run as instructions, in every phase, by run / % / $
+    rp = lambda name, args=('sym',), **k: Pgm('sys', name, list(args), **k)
+    for ph in PHASES:
+        add('run/' + ph, act=sys_(['plain']), setup_stdin='string',
+            runs=[(ph, 'run', rp('r1', ['sym', 'spaces'], stdin='here-doc'), False),
+                  (ph, '%', rp('r2', ['sym1', 'list']), False),
+                  (ph, '$', Pgm('shell', 'r3 "x  y" @[S0]@', head_value=[sp.C('r3 "x  y" '), sp.S(0)]), False)],
+            cd=(ph in ('assert', 'cleanup')))
+    add('run/ref-all-phases', act=Pgm('ref', 'P1', ['plain']),
+        defs=[('P1', Pgm('sys', 'base', ['sym'], stdin='string')), ('P2', Pgm('ref', 'P1', ['sym1'], stdin='program'))],
+        runs=[(ph, 'run', Pgm('ref', 'P2', ['plain2']), False) for ph in PHASES])
+    if tier == 'thorough':
+        for t in sp.T:
+            add('stdin/pgm-' + t + '+setup-' + t, act=sys_(['sym'], stdin=t), setup_stdin=t)
+            add('file-actor/stdin-' + t, actor='file', act=['sym'], setup_stdin=t)
+        for a in sp.A:
+            if a != 'rest':
+                add('arg/' + a, act=Pgm('ref', 'P1', [a, 'sym1']), defs=[('P1', sys_([a]))])
+        add('chain/3', act=Pgm('ref', 'P3', ['sym', 'rest'], stdin='string'),
+            defs=[('P1', Pgm('shell', 'c @[S1]@', head_value=[sp.C('c '), sp.S(1)], stdin='here-doc')),
+                  ('P2', Pgm('ref', 'P1', ['sym', 'sym-in-dq'], trans='upper')),
+                  ('P3', Pgm('ref', 'P2', ['path', 'sym1'], stdin='program'))], setup_stdin='file')
+    return cs
+
+
+_K3 = {}
+
+
+def _k3_case(name: str) -> K3Case:
+    if not _K3:
+        for c in _k3_cases('thorough') + _k4_cases('thorough'):
+            _K3[c.name] = c
+    return _K3[name]
+
+
+def _pre_k3(s0, s1) -> bool:
+    return _short(s0, s1)
+
+
+def _source_text() -> str:
+    import os
+    return os.linesep.join(SOURCE_LINES) + os.linesep
+
+
+S2_K3 = 'the value of S2\n'
+
+
+def _run_whole(case: K3Case, s0, s1, atc_child: L.Child, run_children=None, text=None, setup_stdin_first=False):
+    roles = [p.role for p in case.procs(sp.Env(['', '', '']), '')]
+    rec = L.Recorder(_behaviour(roles, atc_child, run_children))
+    predefined = {'S0': L.string_symbol(s0), 'S1': L.string_symbol(s1), 'S2': L.string_symbol(S2_K3)}
+    run = L.run_case(text if text is not None else case.text(), rec, predefined, HDS_FILES)
+    env = sp.Env([s0, s1, S2_K3], act=run.act_dir if run.sds_root else '', hds=run.hds)
+    expected = case.procs(env, _expected_cwd(run, case) if run.sds_root else '', setup_stdin_first)
+    return run, expected
+
+
+def k3_whole(s0: str, s1: str) -> bool:
+    """
+    pre: _pre_k3(s0, s1)
+    post: _
+    """
+    case = _k3_case(ob.case()['scenario'])
+    child = L.Child(out=OUT0, err=ERR0, code=0, read_file_arg=(-1 if case.actor == 'source' else None))
+    bug = ob.case().get('oracle_bug')
+    run, expected = _run_whole(case, s0, s1, child, setup_stdin_first=(bug == 'stdin-order'))
+    if bug == 'cwd-act':
+        for p in expected:
+            p.cwd = run.act_dir
+    ok = _procs_match(expected, run.calls, _source_text())
+    ok = ok and run.status == 'PASS'
+    if not ok and not ob.twin():
+        _explain(run, expected)
+    return ob.post(ok)
+
+
+def _explain(run, expected):
+    import sys
+    if 'crosshair' in sys.modules:
+        return
+    sys.stderr.write('status %s %s\n  expected %r\n  got      %r\n' % (run.status, run.failure_text()[:800], expected, run.calls))
+
+
+# =============================================================================================== K4
+
+REAL_K4 = (
+    'exactly_lib.impls.instructions.multi_phase.run._InstructionPartsParser._parse_result_translator',
+    'exactly_lib.impls.instructions.multi_phase.utils.instruction_from_parts_for_executing_program.ResultTranslator',
+    'exactly_lib.impls.instructions.multi_phase.utils.instruction_from_parts_for_executing_program.result_to_sh',
+    'exactly_lib.impls.instructions.multi_phase.utils.instruction_from_parts_for_executing_program.result_to_pfh',
+    'exactly_lib.impls.instructions.multi_phase.utils.instruction_part_utils.MainStepResultTranslatorForUnconditionalSuccess',
+)
+
+
+def _pre_k4a(code, ignore, is_assert) -> bool:
+    return True
+
+
+def k4_verdict(code: int, ignore: bool, is_assert: bool) -> bool:
+    """
+    pre: _pre_k4a(code, ignore, is_assert)
+    post: _
+    """
+    import pathlib
+    from exactly_lib.impls.instructions.multi_phase import run as run_instruction
+    from exactly_lib.impls.instructions.multi_phase.utils.instruction_from_parts_for_executing_program import \
+        ExecutionResultAndStderr
+    from exactly_lib.section_document.parse_source import ParseSource
+    from exactly_lib.test_case.result import pfh
+    from exactly_lib.util.description_tree import renderers
+    text = ('-ignore-exit-code ' if ob.concrete_bool(ignore) else '') + '% prog arg'
+    source = ParseSource(text)
+    translator = run_instruction.parts_parser('run')._parse_result_translator(source)
+    if source.remaining_source != '% prog arg':
+        return ob.post(False)
+    result = ExecutionResultAndStderr(code, (None if code == 0 else 'stderr text'), pathlib.Path('/vsym/storage'),
+                                      renderers.header_only('program'))
+    bug = ob.case().get('oracle_bug')
+    must_succeed = ignore or code == 0
+    if bug == 'positive-only':
+        must_succeed = ignore or code <= 0  # seeded oracle error
+    if is_assert:
+        r = translator.translate_for_assertion(result)
+        ok = (r.status is pfh.PassOrFailOrHardErrorEnum.PASS) if must_succeed else (r.status is pfh.PassOrFailOrHardErrorEnum.FAIL)
+    else:
+        r = translator.translate_for_non_assertion(result)
+        ok = r.is_success if must_succeed else r.is_hard_error
+    return ob.post(ok)
+
+
+def _k4_cases(tier: str) -> List[K3Case]:
+    cs = []
+    sys_ = lambda args=(), **k: Pgm('sys', 'prog', list(args), **k)
+    # ---- outcome of the action to check, per actor
+    cs.append(K3Case('outcome/command', act=sys_(['sym']), outcome=True))
+    cs.append(K3Case('outcome/command-transformed', act=Pgm('ref', 'P1', [], trans='replace'),
+                     defs=[('P1', sys_(['sym'], trans='upper'))], outcome=True))
+    cs.append(K3Case('outcome/file', actor='file', act=['sym'], outcome=True))
+    cs.append(K3Case('outcome/source', actor='source', outcome=True))
+    cs.append(K3Case('outcome/null', actor='null', outcome=True))
+    # ---- a program run as an instruction: one per phase and instruction form
+    for ph in PHASES:
+        for form in ('run', '%', '$'):
+            p = Pgm('shell', 'r1 x', head_value=[sp.C('r1 x')]) if form == '$' else Pgm('sys', 'r1', ['sym'])
+            cs.append(K3Case('instr/%s/%s' % (ph, form), act=sys_(['plain']), runs=[(ph, form, p, False)]))
+        cs.append(K3Case('instr/%s/run-ref' % ph, act=sys_(['plain']), defs=[('P1', Pgm('sys', 'r1', ['sym']))],
+                         runs=[(ph, 'run', Pgm('ref', 'P1', ['sym1']), False)]))
+    return cs
+
+
+def _codes(tier_case) -> tuple:
+    return tuple(range(256)) if tier_case.get('all_codes') else CODES_QUICK
+
+
+def _pre_k4b(io, ie, ic, k0) -> bool:
+    c = ob.case()
+    if c.get('all_codes') and not (io == 0 and ie == 0):
+        return False
+    if _k3_case(c['scenario']).actor == 'null' and not (io == 0 and ie == 0 and ic == 0):
+        return False
+    return 0 <= io < len(OUTS) and 0 <= ie < len(ERRS) and 0 <= ic < len(_codes(c))
+
+
+def k4_outcome(io: int, ie: int, ic: int, k0: int) -> bool:
+    """
+    pre: _pre_k4b(io, ie, ic, k0)
+    post: _
+    """
+    from vsym import xly
+    case = _k3_case(ob.case()['scenario'])
+    out, err, code = ob.pick(OUTS, io), ob.pick(ERRS, ie), ob.pick(_codes(ob.case()), ic)
+    xly.install_int_placeholders([k0])
+    try:
+        child = L.Child(out=out, err=err, code=code, read_file_arg=(-1 if case.actor == 'source' else None))
+        run, expected = _run_whole(case, 'v0', 'v1', child)
+    finally:
+        xly.uninstall_int_placeholders()
+    if case.actor == 'null':
+        out, err, code = '', '', 0
+    d = case.act_den()
+    seen_out = out if d is None else sp.transformed(d, out)
+    expected_out = OUT0 if d is None else sp.transformed(d, OUT0)
+    if case.actor == 'null':
+        expected_out, expected_err = '', ''
+    else:
+        expected_err = ERR0
+    bug = ob.case().get('oracle_bug')
+    # the assertions are evaluated in order; the first one that does not hold FAILs the case
+    if (code != k0) if bug != 'exit-code-le' else (code > k0):
+        want = ('FAIL', 'exit-code == K0')
+    elif seen_out != expected_out:
+        want = ('FAIL', 'stdout ')
+    elif err != expected_err:
+        want = ('FAIL', 'stderr ')
+    else:
+        want = ('PASS', '')
+    ok = _procs_match(expected, run.calls, _source_text())
+    ok = ok and run.status == want[0] and run.failing_line().startswith(want[1])
+    ok = ok and (want[0] == 'PASS' or run.failing_phase() == 'assert')
+    outcome = run.result.action_to_check_outcome if run.exception is None else None
+    ok = ok and outcome is not None and outcome.exit_code == code
+    if not ok and not ob.twin():
+        _explain(run, expected)
+    return ob.post(ok)
+
+
+def _pre_k4c(ic, ignore) -> bool:
+    c = ob.case()
+    form = _k3_case(c['scenario']).runs[0][1]
+    if ignore and form != 'run':
+        return False  # only `run` has -ignore-exit-code
+    return 0 <= ic < len(_codes(c))
+
+
+def k4_instruction(ic: int, ignore: bool) -> bool:
+    """
+    pre: _pre_k4c(ic, ignore)
+    post: _
+    """
+    case = _k3_case(ob.case()['scenario'])
+    code = ob.pick(_codes(ob.case()), ic)
+    phase, form, p, _ = case.runs[0]
+    text = None
+    if ob.concrete_bool(ignore):
+        variant = K3Case(case.name, act=case.act, defs=case.defs, runs=[(phase, form, p, True)])
+        text = variant.text()
+    run, expected = _run_whole(case, 'v0', 'v1', L.Child(out=OUT0, err=ERR0, code=0),
+                               run_children={'run0': L.Child(out='o', err='e', code=code)}, text=text)
+    bug = ob.case().get('oracle_bug')
+    failed = code != 0 and not ignore
+    if failed:
+        status = 'FAIL' if (phase == 'assert' and bug != 'hard-error-everywhere') else 'HARD_ERROR'
+        # nothing after the failing instruction runs, except [cleanup]
+        if phase == 'setup':
+            expected = [e for e in expected if e.role != 'atc']
+        ok = run.status == status and run.failing_phase() == phase
+    else:
+        ok = run.status == 'PASS'
+    ok = ok and _procs_match(expected, run.calls, _source_text())
+    if not ok and not ob.twin():
+        _explain(run, expected)
+    return ob.post(ok)
+
+
 # =============================================================================================== obligations
 
 def obligations(tier: str) -> List[Ob]:
@@ -436,11 +933,15 @@ def obligations(tier: str) -> List[Ob]:
     # ---- K1
     for drv in K1_DRIVERS:
         for n in (0, 1, 2, 3):
+            # ' '.join of the shell driver forks on the length of every operand: smaller bound there
+            m = MAXLEN if drv != 'shell' else {0: 6, 1: 4, 2: 2, 3: 2}[n] + (1 if tier == 'thorough' and n >= 1 else 0)
+            lean = drv == 'shell' and n >= 2
             obs.append(Ob(
-                name='K1:%s/%d' % (drv, n), fn='k1_execute', case=dict(driver=drv, nargs=n), kernel='K1',
+                name='K1:%s/%d' % (drv, n), fn='k1_execute', case=dict(driver=drv, nargs=n, maxlen=m, lean=lean), kernel='K1',
                 bound='%s driver, %d arguments: every program / command-line string and every argument string of '
-                      '<= %d characters (any characters), every timeout in N or none, every exit code in Z, '
-                      'every OS failure kind in {none, ValueError, OSError, TimeoutExpired}' % (drv, n, MAXLEN),
+                      '<= %d characters (any characters), every exit code in Z, %s' % (
+                          drv, n, m, 'no timeout, no OS failure' if lean else
+                          'every timeout in N or none, every OS failure kind in {none, ValueError, OSError, TimeoutExpired}'),
                 timeout=300, real=REAL_K1, stubs=(STUB_SUBPROCESS,),
                 outside=('what the kernel does with the argument vector; real shells',),
                 entry='OsServices.command_executor.execute(Command, settings, files)'))
@@ -474,6 +975,69 @@ def obligations(tier: str) -> List[Ob]:
                   case=dict(scenario='chain/2', oracle_bug='args-reversed-layers'), kernel='K2',
                   bound='seeded oracle error: accumulated arguments expected in reverse order', timeout=120,
                   expect=ob.REFUTE, real=REAL_K2, stubs=(STUB_SYMBOLS, STUB_SINK)))
+    # ---- K3
+    m3 = 2 if tier == 'quick' else 3
+    for c in _k3_cases(tier):
+        obs.append(Ob(
+            name='K3:' + c.name, fn='k3_whole', case=dict(scenario=c.name, maxlen=m3), kernel='K3',
+            bound='test case %r: every value of the predefined string symbols S0, S1 of <= %d characters (any characters)' % (
+                c.text(), m3),
+            timeout=300, real=REAL_K3, stubs=(STUB_SUBPROCESS, STUB_SYMBOLS, STUB_SANDBOX),
+            outside=('stdin / stdout / stderr texts and the act-phase source of the source interpreter are catalogue values '
+                     '(they cross the file layer)',),
+            entry='full_execution.execute on the parsed test case (what MainProgram runs for a case file)'))
+    obs.append(Ob(name='K3:seeded-cwd-not-followed', fn='k3_whole',
+                  case=dict(scenario='stdin/pgm+setup', maxlen=1, oracle_bug='cwd-act'), kernel='K3',
+                  bound='seeded oracle error: the cwd expected to stay act/ after `cd sub`', timeout=120,
+                  expect=ob.REFUTE, real=REAL_K3, stubs=(STUB_SUBPROCESS, STUB_SYMBOLS, STUB_SANDBOX)))
+    obs.append(Ob(name='K3:seeded-setup-stdin-first', fn='k3_whole',
+                  case=dict(scenario='stdin/pgm+setup', maxlen=1, oracle_bug='stdin-order'), kernel='K3',
+                  bound='seeded oracle error: [setup] stdin expected before the stdin of the program', timeout=120,
+                  expect=ob.REFUTE, real=REAL_K3, stubs=(STUB_SUBPROCESS, STUB_SYMBOLS, STUB_SANDBOX)))
+    # ---- K4
+    obs.append(Ob(name='K4:verdict', fn='k4_verdict', case=dict(), kernel='K4',
+                  bound='every exit code in Z, with and without -ignore-exit-code, as assertion and as non-assertion',
+                  timeout=120, real=REAL_K4,
+                  outside=('the exit code is handed to the translators directly (between the child and the translator it '
+                           'is written to a file, see K4:instr/*)',),
+                  entry='run.parts_parser -> result translator'))
+    obs.append(Ob(name='K4:seeded-negative-exit-codes-pass', fn='k4_verdict', case=dict(oracle_bug='positive-only'),
+                  kernel='K4', bound='seeded oracle error: only positive exit codes expected to fail', timeout=120,
+                  expect=ob.REFUTE, real=REAL_K4))
+    for c in _k4_cases(tier):
+        if c.name.startswith('outcome/'):
+            obs.append(Ob(
+                name='K4:' + c.name, fn='k4_outcome', case=dict(scenario=c.name), kernel='K4',
+                bound='test case %r: child stdout in %r, stderr in %r, exit code in %r (symbolic selectors), '
+                      'every operand K0 in Z of `exit-code ==`' % (c.text(), OUTS, ERRS, CODES_QUICK),
+                timeout=600, real=REAL_K3, stubs=(STUB_SUBPROCESS, STUB_INT, STUB_SANDBOX),
+                entry='full_execution.execute on the parsed test case'))
+        else:
+            obs.append(Ob(
+                name='K4:' + c.name, fn='k4_instruction', case=dict(scenario=c.name), kernel='K4', selector=True,
+                bound='test case %r: exit code of the instruction\'s program in %r, with and without -ignore-exit-code '
+                      '(run only)' % (c.text(), CODES_QUICK),
+                timeout=300, real=REAL_K3 + REAL_K4, stubs=(STUB_SUBPROCESS, STUB_SANDBOX),
+                entry='full_execution.execute on the parsed test case'))
+    if tier == 'thorough':
+        obs.append(Ob(
+            name='K4:outcome/command/all-codes', fn='k4_outcome', case=dict(scenario='outcome/command', all_codes=True),
+            kernel='K4', bound='exit code of the action to check: every value 0..255; every operand K0 in Z',
+            timeout=1800, real=REAL_K3, stubs=(STUB_SUBPROCESS, STUB_INT, STUB_SANDBOX)))
+        for ph in PHASES:
+            obs.append(Ob(
+                name='K4:instr/%s/run/all-codes' % ph, fn='k4_instruction',
+                case=dict(scenario='instr/%s/run' % ph, all_codes=True), kernel='K4', selector=True,
+                bound='exit code of the program of `run` in [%s]: every value 0..255, with and without -ignore-exit-code' % ph,
+                timeout=1800, real=REAL_K3 + REAL_K4, stubs=(STUB_SUBPROCESS, STUB_SANDBOX)))
+    obs.append(Ob(name='K4:seeded-exit-code-le', fn='k4_outcome',
+                  case=dict(scenario='outcome/command', oracle_bug='exit-code-le'), kernel='K4',
+                  bound='seeded oracle error: `exit-code == K0` expected to hold when the code is <= K0', timeout=300,
+                  expect=ob.REFUTE, real=REAL_K3, stubs=(STUB_SUBPROCESS, STUB_INT, STUB_SANDBOX)))
+    obs.append(Ob(name='K4:seeded-hard-error-in-assert', fn='k4_instruction',
+                  case=dict(scenario='instr/assert/run', oracle_bug='hard-error-everywhere'), kernel='K4',
+                  bound='seeded oracle error: HARD_ERROR expected for a non-zero exit code in [assert] too', timeout=300,
+                  expect=ob.REFUTE, real=REAL_K3 + REAL_K4, stubs=(STUB_SUBPROCESS, STUB_SANDBOX)))
     return obs
 
 
